@@ -16,6 +16,7 @@ every finite history of public mutating operations on any number of instances ob
   their output name, additions are of the addition type, required fields are present, attribute view and key
   view agree) after every operation — whether it raised or not;
 * `C07_raise_unchanged`                     a single-key operation that raises leaves the instance as it was;
+* `C07_copy_isolated`, `C07_copy_equal`     an operation on one instance changes no other; a copy equals its original;
 * `C07_immutable_step`, `C07_immutable`     immutable fields hold their initial value in every instance;
 * `C07_no_raw`                              every stored value was already there, or is a converter's output, a getter's
   converted output, or an accepted addition;
@@ -98,6 +99,20 @@ theorem C07_reachable (hwf : WF C) (hl : Laws W conf addOk) (s0 : State V) (h0 :
     simp at hs
     rw [hs]
     exact C07_init hwf hl s0 h0)
+
+/-- **C07 (copies are independent).**  An operation on one instance leaves every other instance
+(the original of a copy, or a copy of it) exactly as it was. -/
+theorem C07_copy_isolated (h : List (State V)) (i j : Nat) (op : Op V) (hij : i ≠ j) :
+    (hstep false C W h (.on i op)).1[j]? = h[j]? := by
+  simp only [hstep]
+  cases hi : h[i]? with
+  | none => rfl
+  | some s => simp [List.getElem?_set_ne hij]
+
+/-- `copy()` hands out an instance equal to the original and leaves the existing ones alone -/
+theorem C07_copy_equal (h : List (State V)) (i : Nat) (s : State V) (hi : h[i]? = some s) :
+    (hstep false C W h (.copy i)).1 = h ++ [s] := by
+  simp [hstep, hi]
 
 /-! ### a raising single-key operation changes nothing -/
 
